@@ -3,8 +3,12 @@
 Every probe records what it actually received together with the scope that was
 active inside it.  Harnesses compare that record with their reference model.
 """
+import logging
+
 import gin
 from gin import config as gc
+
+logging.disable(logging.CRITICAL)  # gin's package reader logs an error per missing path
 
 LOG = []
 
